@@ -5540,11 +5540,10 @@ impl<'a, 'graph> Builder<'a, 'graph> {
       self.graph.module_slots.remove(&requested_specifier);
     }
 
-    self
-      .graph
-      .redirects
-      .entry(requested_specifier)
-      .or_insert(specifier);
+    // the latest answer wins: a redirect recorded for an earlier answer of
+    // the same specifier may lead back to it, in which case nothing on that
+    // loop ever gets an entry and every importer loads it again
+    self.graph.redirects.insert(requested_specifier, specifier);
   }
 
   /// Enqueue a request to load the specifier via the loader.
